@@ -305,6 +305,60 @@ theorem expired_parent_unusable_at_once (e : Entry) (sid p iat ct exp : Nat) (u 
       · rw [hu] at hu'; cases hu'
     · rw [ho] at hn; cases hn
 
+/-! ### The session-level reading of the second half is false of the code (refresh renews the grace) -/
+
+/-- Every event of the history is a local write. -/
+def AllWrites (ops : List Op) : Prop := ∀ op ∈ ops, ∃ md ct cid, op = .write md ct cid
+
+
+/-- Issue instants (ns) of OAuth2 session `sid` in a history: every `grant` write of it (the code
+exchange and each refresh, which re-inserts the session with `issued_at = ct` and mints tokens
+with `iat = ct.as_secs()`). -/
+def grantTimes (sid : Nat) : List Op → List Nat
+  | [] => []
+  | .write (.grant o _ _ issued) _ _ :: tl =>
+    if o = sid then issued :: grantTimes sid tl else grantTimes sid tl
+  | _ :: tl => grantTimes sid tl
+
+/-- The property's second half read per *session*: an OAuth2 session first issued at `t0` whose
+parent login session is missing in every state of the history is unusable from `t0 + 5 min` on,
+whichever of its tokens is presented. -/
+def orphan_session_dies_full : Prop :=
+  ∀ (e : Entry) (ops : List Op) (sid p t0 : Nat), AllWrites ops →
+    (∀ t ∈ grantTimes sid ops, t0 ≤ t) →
+    (∀ k, k ≤ ops.length → (run e (ops.take k)).uats.bind (fun m => lookup m p) = none) →
+    p ∉ (run e ops).apis →
+    ∀ t ∈ grantTimes sid ops, ∀ ct, t0 + fiveMinutes ≤ ct →
+      o2Check (run e ops) sid (some p) (t / 1000000000) ct = false
+
+/-- Witness (replayed on the real server, class `C36:refresh-renews-grace-of-orphan-session`):
+code exchange at 0 s under a login session that is never recorded, refresh at 200 s; the
+refreshed token is accepted at 301 s although the parent has been missing for more than 300 s. -/
+def refreshChain : List Op :=
+  [.write (.grant 1 (some 9) (some 57600000000000) 0) 0 1,
+   .write (.grant 1 (some 9) (some 57800000000000) 200000000000) 200000000000 2]
+
+theorem orphan_session_dies_full_false : ¬ orphan_session_dies_full := by
+  intro h
+  have := h { Entry.fresh (some 51) with uats := some [] } refreshChain 1 9 0
+    (by intro op hop; simp only [refreshChain, List.mem_cons, List.mem_nil_iff, or_false] at hop
+        rcases hop with rfl | rfl <;> exact ⟨_, _, _, rfl⟩)
+    (by intro t _; omega)
+    (by intro k hk
+        have : k = 0 ∨ k = 1 ∨ k = 2 := by simp [refreshChain] at hk; omega
+        rcases this with rfl | rfl | rfl <;> decide)
+    (by decide) 200000000000 (by decide) 301000000000 (by decide)
+  revert this
+  decide
+
+/-- … it holds when the session is never refreshed (one issue instant): then its only tokens
+carry `iat = ⌊t0⌋` and the per-token theorem applies. -/
+theorem orphan_session_dies_without_refresh (e : Entry) (sid p t0 ct : Nat)
+    (horphan : ∀ u, e.uats.bind (fun m => lookup m p) = some u → ¬ Live u) (hapi : p ∉ e.apis)
+    (hct : t0 + fiveMinutes ≤ ct) : o2Check e sid (some p) (t0 / 1000000000) ct = false := by
+  apply orphan_oauth2_unusable_after_grace e sid p _ ct _ horphan hapi
+  exact Nat.le_trans (Nat.add_le_add_right (Nat.div_mul_le_self t0 1000000000) _) hct
+
 /-! ## 3. Histories: revoked stays revoked -/
 
 theorem lookup_uats_applyMod {e : Entry} {m : SMap} {k c : Nat} (cid : Nat) (md : Mod)
@@ -381,9 +435,6 @@ theorem revoked_oauth2_stays_revoked_write (e : Entry) (md : Mod) (ct cid k c : 
   simp only [step]
   rw [plugin_o2s, lookup_mapVals, hs1]
   simp [o2Post_of_revoked hr1]
-
-/-- Every event of the history is a local write. -/
-def AllWrites (ops : List Op) : Prop := ∀ op ∈ ops, ∃ md ct cid, op = .write md ct cid
 
 /-- Revoked is absorbing under every continuation of local writes. -/
 theorem revoked_stays_revoked (ops : List Op) (hw : AllWrites ops) (e : Entry) (k c : Nat)
